@@ -48,6 +48,7 @@ def check_token(case: dict):
         accounts[acct] = pw
     mc = (ModelSmartHome if smarthome else ModelCloud)(accounts)
     mc.shuffle = case.get("shuffle", 0)
+    mc.latency = case.get("latency", 0.05)        # a slow service: queued requests wait across second boundaries
     mc.fault_script = {(LOGIN if k == "/v1/user/login" else k): list(v) for k, v in case.get("faults", {}).items()}
     # further token requests issued concurrently on the same cloud object (each for its own id)
     others = [rc.udpid((case["id"] ^ (j * 0x010203)).to_bytes(6, "little")).hex() for j in range(1, 1 + case.get("concurrent", 0))] \
@@ -281,7 +282,7 @@ def _run_one(ctx, case):
 
 def run(ctx) -> None:
     text = st.text(alphabet="abcdefghijklmnopqrstuvwxyzABCDEFGHIJKLMNOPQRSTUVWXYZ0123456789+&=% @._-!#$*/?:;,~", min_size=1, max_size=40)
-    fault = st.sampled_from(["ok", "timeout", "timeout", "http500", "http404", "connect", "api:3101", "api:9999", "api:1"])
+    fault = st.sampled_from(["ok", "timeout", "timeout", "http500", "http404", "http502", "http503", "http503", "http504", "http429", "http301", "connect", "api:3101", "api:9999", "api:1"])
     faults = st.fixed_dictionaries({}, optional={"/v1/user/login/id/get": st.lists(fault, max_size=4), "/v1/user/login": st.lists(fault, max_size=4),
                                                  "/v1/iot/secure/getToken": st.lists(fault, max_size=4)})
     entry = st.one_of(st.just("match"), st.integers(0, 6))
@@ -290,7 +291,7 @@ def run(ctx) -> None:
         "tokenlist": st.one_of(st.none(), st.lists(entry, max_size=6)),
         "faults": st.one_of(st.just({}), faults),
     }, optional={"account": text, "password": text, "region": st.sampled_from(["US", "DE", "KR"]), "cloud": st.sampled_from(["nethome", "smarthome"]),
-                 "concurrent": st.sampled_from([0, 2, 4])}).map(
+                 "concurrent": st.sampled_from([0, 2, 4]), "latency": st.sampled_from([0.05, 0.05, 0.45, 1.3])}).map(
         lambda c: c if ("account" in c) == ("password" in c) else {k: v for k, v in c.items() if k not in ("account", "password")})
     # both cloud flavours x regions x concurrency, no faults
     q = 0
@@ -300,9 +301,23 @@ def run(ctx) -> None:
                 for tl in (None, ["match"], [3, "match", 1], [0, 1, 2]):
                     q += 1
                     if ctx.mine(q):
-                        case = {"id": 0x1A2B3C4D5E6F ^ (q * 0x10001), "shuffle": q % 2, "tokenlist": tl, "faults": {}, "region": region, "cloud": cloud, "concurrent": conc}
+                        case = {"id": 0x1A2B3C4D5E6F ^ (q * 0x10001), "shuffle": q % 2, "tokenlist": tl, "faults": {}, "region": region, "cloud": cloud, "concurrent": conc,
+                                "latency": [0.05, 0.45, 1.3][q % 3]}
                         ctx.check(case, lambda c: _run_one(ctx, c))
     ctx.sweep("cloud flavour x region x concurrent requests x token list shapes", q, True)
+    # every sequence of up to 4 faults from {timeout, 503, 502, 500, ok} on each endpoint: attempts never exceed the budget
+    import itertools
+    f = 0
+    for path in ("/v1/user/login/id/get", "/v1/user/login", "/v1/iot/secure/getToken"):
+        for n in (1, 2, 3, 4):
+            for seq in itertools.product(["timeout", "http503", "http502", "http500", "ok"], repeat=n):
+                if "ok" in seq[:-1] or (n == 4 and ctx.quick and hash(seq) % 3):
+                    continue
+                f += 1
+                if ctx.mine(f):
+                    case = {"id": 0x00AABBCCDD00 + f, "shuffle": 0, "tokenlist": None, "faults": {path: list(seq)}, "cloud": ["nethome", "smarthome"][f % 2]}
+                    ctx.check(case, lambda c: _run_one(ctx, c))
+    ctx.sweep("fault sequences (timeouts mixed with gateway errors) per endpoint", f, True)
     ctx.hyp("token", token_cases, lambda c: _run_one(ctx, c), ctx.n(3200, 160000))
     disc_cases = st.fixed_dictionaries({"leg": st.just("discovery"), "id": gens.device_ids(48).filter(lambda i: i.to_bytes(6, "little") != i.to_bytes(6, "big")),
                                         "endian": st.sampled_from(["little", "big"]), "port": st.sampled_from([6444, 6444, 7000])},
